@@ -41,8 +41,13 @@ type Creator = Arc<Mutex<FakeCreator>>;
 
 const NTU: usize = 4;
 
+/// exit status `code`; 98 stands for "killed by signal 9" (no exit code at all)
 fn status(code: i32) -> ExitStatus {
-    ExitStatus::from_raw(code << 8)
+    if code == 98 {
+        ExitStatus::from_raw(9)
+    } else {
+        ExitStatus::from_raw(code << 8)
+    }
 }
 
 // ---------------------------------------------------------------- the fake compiler
@@ -708,6 +713,8 @@ impl World {
                     vec!["-c".into(), src, format!("-Fo{}", out_rel), "-Zi".into(), "-Fdshared.pdb".into()],
                 )
             }
+            // `sccache <compiler>` without a single argument
+            "noargs" => (self.cwd.join(if t >= 2 { "clang" } else { "gcc" }), vec![]),
             "unsupported" => (self.cwd.join("unk"), vec!["-c".into(), src, "-o".into(), out_rel]),
             "vanished" => (self.cwd.join("gone-gcc"), vec!["-c".into(), src, "-o".into(), out_rel]),
             "notcompile" => (self.cwd.join("gcc"), vec![src, "-o".into(), format!("tu{}", t)]),
@@ -760,7 +767,13 @@ impl World {
                             Sx::B(cf.stdout),
                             Sx::B(cf.stderr),
                         ]),
-                        (None, s) => Sx::L(vec![Sx::sym("signal"), Sx::n(s.unwrap_or(0) as u64)]),
+                        // killed by a signal: reported as status 256 + signal (the model's statuses are numbers)
+                        (None, s) => Sx::L(vec![
+                            Sx::sym("finished"),
+                            Sx::n(256 + s.unwrap_or(0) as u64),
+                            Sx::B(cf.stdout),
+                            Sx::B(cf.stderr),
+                        ]),
                     },
                     Ok(Ok(_)) => Sx::L(vec![Sx::sym("bad_body")]),
                     Ok(Err(_)) => Sx::L(vec![Sx::sym("body_err")]),
